@@ -35,6 +35,42 @@ SEEDS = [
 ]
 
 
+UNI = ["\u0661", "\uff11", "\u09e9", "\u00bd", "\u00b2", "\u2460", "\u2167", "\u3007", "\u00e9", "\u03a9", "\u65e5", "\U0001d4b3", "\U0001f496",
+       "\u0301", "\u200d", "\u200c", "\ufeff", "\u00a0", "\u2028", "\u2029", "\u0085", "\u200f", "\ud7ff", "\ue000", "\uffff", "\U0010ffff",
+       "\x00", "\x01", "\x7f", "\t", "\r", "\x0b", "\x0c", "\u00df", "\u0130", "\u01c5", "\u2002", "\u3000", "\u00ad", "\u20ac"]
+UNI_CTX = ["{c}", "let x = {c};", "{c}{c}", "a{c}", "{c}a", "1{c}", "{c}1", "\"{c}", "\"{c}\"", "'{c}'", "'{c}", "b'{c}'", "#{c}\n1", "//{c}", "x.{c}", "${c}", "@{c}",
+           "0x{c}", "1e{c}", "1.{c}", "{c}: loop {{ }}", "break {c};", "fn {c}() {{ }}", "fn f({c}) {{ }}", "map {{{c}: 1}}", "[{c}]", "f({c})", "{c} = 1;", "1 + {c}",
+           "match 1 {{ {c} => 1 }}", "if {c} {{ }}", "-{c}", "{c}..{c}", "let {c} = 1; {c}"]
+
+
+def unicode_texts():
+    """characters of every Unicode class in every lexical position"""
+    out = []
+    for c in UNI:
+        for ctx in UNI_CTX:
+            out.append(ctx.format(c=c))
+    return out
+
+
+def long_name_texts():
+    """long identifiers / tokens whose multi-byte characters straddle every byte offset up to 70, wherever a diagnostic may quote them"""
+    out = []
+    tmpls = ["{n};", "let x = {n} + 1;", "{n} = 1;", "{n}(1);", "fn f() {{ {n} }} f();", "let {n} = 1; {n};", "break {n};", "{n}: loop {{ break {n}; }}",
+             "x.{n};", "let a = 1; a.{n};", "${n}", "\"{n}", "'{n}'", "0x{n}", "1{n}", "@ {n}", "fn {n}({n}) {{ {n} }} {n}(1);", "let s = \"{n}\"; s.{n}",
+             "continue {n};", "map {{{n}: 1}};", "match {n} {{ 1 => 1 }};", "{n}.{n}.{n};"]
+    wide = ["\u00e9", "\u65e5", "\U0001d4b3"]
+    for pre in range(0, 70):
+        for w in wide:
+            name = "a" * pre + w * 3 + "z" * 5
+            for t in (tmpls if pre % 7 == 0 or 28 <= pre <= 34 or 60 <= pre <= 66 else tmpls[:6]):
+                out.append(t.format(n=name))
+    for L in (10, 11, 12, 16, 17, 20, 31, 32, 33, 64, 65, 100, 255, 256, 257, 1000):
+        for w in wide:
+            for t in tmpls[:8]:
+                out.append(t.format(n=w * L))
+    return out
+
+
 def gather_seed_texts():
     out = list(SEEDS)
     for p in sorted(glob.glob(os.path.join(core.REPO, "examples", "**", "*.p2"), recursive=True)):
@@ -262,6 +298,10 @@ def run(chk):
             texts.append(("prefix", s[:cut]))
     for t in ladders():
         texts.append(("ladder", t))
+    for t in unicode_texts():
+        texts.append(("unicode", t))
+    for t in long_name_texts():
+        texts.append(("long-name", t))
     texts.extend(chains())
     cases = [Case("t%d" % i, t, {"stage": "compile"}) for i, (_, t) in enumerate(texts)]
     res = core.run_cases(cases, shards=shards, timeout=(60 if quick else 600), max_hangs=1)
